@@ -73,12 +73,57 @@ def _track(op, keys):
         keys.discard(unhx(op[1]))
 
 
-def gen_history(rnd, nops, prune=None, batch_p=0.25, kind=None, abort_p=0.35):
+def _track_vals(op, d):
+    if op[0] == "set":
+        d[op[1]] = op[2]
+    elif op[0] in ("del", "sete"):
+        d.pop(op[1], None)
+
+
+def gen_history(rnd, nops, prune=None, batch_p=0.25, kind=None, abort_p=0.35, undo_p=0.12, fail_p=0.0):
+    """undo_p: probability that the next unit takes the contents BACK to an earlier state (the
+    one before the last unit, or an older one) by another route - a committed batch or a run of
+    plain operations - so that earlier root hashes are reached again."""
     universe = gen.KeyUniverse(rnd, kind)
     pool = gen.value_pool(rnd)
     keys = set()
     ops = []
+    cur = {}
+    states = [{}]
+
+    def note(unit):
+        if unit[0] == "batch":
+            if unit[2] is None:
+                for o in unit[1]:
+                    _track_vals(o, cur)
+        else:
+            _track_vals(unit, cur)
+        states.append(dict(cur))
+
     for _ in range(nops):
+        if len(states) > 2 and rnd.random() < undo_p:
+            target = states[-2] if rnd.random() < 0.6 else rnd.choice(states[:-1])
+            diff = [["set", k, v, rnd.randrange(2)] for k, v in sorted(target.items()) if cur.get(k) != v]
+            diff += [["del", k, rnd.randrange(2)] for k in sorted(cur) if k not in target]
+            if 0 < len(diff) <= 5:
+                rnd.shuffle(diff)
+                if rnd.random() < 0.6:
+                    ops.append(["batch", diff, None])
+                    note(ops[-1])
+                else:
+                    for o in diff:
+                        ops.append(o)
+                        note(o)
+                keys = {unhx(k) for k in cur}
+                continue
+        if fail_p and rnd.random() < fail_p:
+            # an operation attempted on an incomplete database (it fails atomically or succeeds)
+            o = gen_op(rnd, universe, pool, keys)
+            ops.append(["fail", o, rnd.choice([0.2, 0.5, 1.0]), rnd.randrange(1 << 30)])
+            # whether it takes effect is only known at run time: the generator's idea of the
+            # contents (used to bias later keys, and for undo routes) is reset to "unknown"
+            states[:] = [dict(cur)]
+            continue
         if rnd.random() < batch_p:
             n = rnd.randint(0, 5)
             bkeys = set(keys)
@@ -94,10 +139,12 @@ def gen_history(rnd, nops, prune=None, batch_p=0.25, kind=None, abort_p=0.35):
                 ops.append(["batch", sub, abort])
             if abort is None:
                 keys = bkeys
+            note(ops[-1])
         else:
             o = gen_op(rnd, universe, pool, keys)
             _track(o, keys)
             ops.append(o)
+            note(o)
     return {
         "engine": "hh",
         "prune": bool(rnd.randrange(2)) if prune is None else prune,
@@ -108,31 +155,30 @@ def gen_history(rnd, nops, prune=None, batch_p=0.25, kind=None, abort_p=0.35):
 
 
 # -------------------------------------------------------------------------- execution
-def apply_plain(trie, model, op):
-    """Apply one plain op to a real trie (through cut) and to the model."""
+def apply_plain(trie, model, op, expect=()):
+    """Apply one plain op to a real trie (through cut) and to the model.  An exception of a
+    type listed in `expect` is returned as Raised and the model is left alone."""
     kind = op[0]
     k = unhx(op[1])
     if kind == "set":
         v = unhx(op[2])
-        if op[3]:
-            cut(trie.__setitem__, k, v)
-        else:
-            cut(trie.set, k, v)
+        res = cut(trie.__setitem__ if op[3] else trie.set, k, v, expect=expect)
+        if isinstance(res, Raised):
+            return res
         model[k] = v
     elif kind == "del":
-        if op[2]:
-            cut(trie.__delitem__, k)
-        else:
-            cut(trie.delete, k)
+        res = cut(trie.__delitem__ if op[2] else trie.delete, k, expect=expect)
+        if isinstance(res, Raised):
+            return res
         model.pop(k, None)
     elif kind == "sete":
-        if op[2]:
-            cut(trie.__setitem__, k, b"")
-        else:
-            cut(trie.set, k, b"")
+        res = cut(trie.__setitem__ if op[2] else trie.set, k, b"", expect=expect)
+        if isinstance(res, Raised):
+            return res
         model.pop(k, None)
     else:
         raise ValueError(kind)
+    return None
 
 
 class Runner:
@@ -169,6 +215,8 @@ class Runner:
             self.step += 1
             if op[0] == "batch":
                 self.run_batch(op)
+            elif op[0] == "fail":
+                self.run_failing(op)
             else:
                 self.db.label = (self.step, op[0])
                 apply_plain(self.trie, self.model, op)
@@ -181,6 +229,30 @@ class Runner:
         tv = self.db.pending_trace_violation
         if tv is not None:
             raise Violation(tv.monitor, tv.detail)
+
+    def run_failing(self, op):
+        """["fail", plain_op, density, seed]: the operation is attempted while a random subset of
+        the node bodies is absent from the database; the bodies come back afterwards.  If the
+        call raises MissingTrieNode it did not happen (atomic failure); if it returns it did."""
+        from trie.exceptions import MissingTrieNode
+
+        _, plain, density, seed = op
+        r = random.Random(seed)
+        keys = sorted(self.db.raw())
+        hide = [h for h in keys if r.random() < density]
+        self.db.hide(hide)
+        m2 = dict(self.model)
+        try:
+            self.db.label = (self.step, "fail:" + plain[0])
+            res = apply_plain(self.trie, m2, plain, expect=(MissingTrieNode,))
+        finally:
+            for h in hide:
+                self.db.supply(h)
+        if isinstance(res, Raised):
+            self.ctx.count("op_failed_missing_node")
+        else:
+            self.model = m2
+            self.ctx.count("op_succeeded_despite_missing_nodes")
 
     def run_batch(self, op):
         _, sub, abort = op[:3]
